@@ -53,12 +53,72 @@ def project_factory(prog, pkgpath, tagtexts):
     return project
 
 
+COMPACT = [
+    # (body of package u, codes expected as a multiset)
+    ("func reset(p, q *d.T) { p.X = 0; q.X = 0 }\n", {"IMM01": 2}),
+    ("func bump(p, q *d.T) { p.X++; q.X++; p.X = 0 }\n", {"IMM03": 2, "IMM01": 1}),
+    ("func two() (d.T, d.T) { return d.T{X: 1}, d.T{X: 1} }\n", {"CTOR01": 2}),
+    ("func both(p *d.T) { if p != nil { p.X = 0 } else { p.X = 0 } }\n", {"IMM01": 2}),
+    ("func calls() int { a := d.TF(1); b := d.TF(1); return a + b + d.PF(2) + d.PF(2) }\n", {"TONL02": 2, "PKGO02": 2}),
+    ("func news() { _ = new(d.T); _ = new(d.T) }\n", {"CTOR02": 2}),
+]
+
+
+def compact_programs(ctx):
+    """Several reported statements on one source line against the gofmt'ed form of the same file: the same references are reported."""
+    import collections
+    import gen_all
+    items = []
+    for i, (body, want) in enumerate(COMPACT):
+        src = "package u\n\nimport \"m/d\"\n\n" + body
+        for tag, text in (("compact", src), ("gofmt", layout.gofmt(src))):
+            items.append(({"id": "C12_compact_%d_%s" % (i, tag), "pkgs": [
+                {"path": "m/d", "name": "d", "files": [{"name": "d/d.go", "src": gen_all.D_SRC}]},
+                {"path": "m/u", "name": "u", "files": [{"name": "u/u.go", "src": text}]}]}, want, tag, body))
+    res = proglib.run_vh(ctx, [it[0] for it in items])
+    for prog, want, tag, body in items:
+        r = res[prog["id"]]
+        if r.get("err"):
+            raise vlib.ToolError("compact program does not load: %s" % r["err"][:400])
+
+        def count(rr):
+            if rr.get("fail"):
+                return None
+            c = collections.Counter(d["code"] for d in rr["diags"] if d["file"].startswith("u/"))
+            return {k: v for k, v in c.items() if k in want}
+        got = count(r)
+        if got != want:
+            got2 = count(proglib.run_vh(ctx, [prog])[prog["id"]])
+            if got2 == want:
+                raise vlib.ToolError("mismatch did not reproduce: %s" % prog["id"])
+            if len(ctx.violations) < 3:
+                ctx.violation("statements sharing a line (%s layout) %r: expected %s reports, observed %s" % (tag, body.strip(), want, got2),
+                              {"kind": "layout", "program": prog, "expected_counts": want, "observed_counts": got2, "cats": []})
+    return len(items)
+
+
 def run(ctx):
     if ctx.replay:
         import json
         obj = json.load(open(ctx.replay))
         prog = obj["program"]
         r = proglib.run_vh(ctx, [prog])[prog["id"]]
+        if "expected_counts" in obj or obj.get("scenario", {}).get("transform", [""])[0].startswith("header"):
+            import collections
+            if "expected_counts" in obj:
+                c = collections.Counter(d["code"] for d in r.get("diags", []) if d["file"].startswith("u/"))
+                bad = r.get("fail") or {k: v for k, v in c.items() if k in obj["expected_counts"]} != obj["expected_counts"]
+            else:
+                code = obj["code"]
+                got = {k for k in proglib.keyset([d for d in r.get("diags", []) if d["code"] == code]) if k[0].startswith("u/")}
+                bad = r.get("fail") or got != set(tuple(x) for x in obj["expected"])
+            print(json.dumps({"fail": r.get("fail"), "diags": [(d["file"], d["line"], d["code"]) for d in r.get("diags", [])][:20]}))
+            if r.get("err"):
+                return 2
+            if bad:
+                print("VIOLATION property=C12 replay=%s" % ctx.replay)
+                return 1
+            return 0
         pr = project_factory(prog, None, None)
         got = pr([d for d in r["diags"] if d["code"] and d["code"][:-2] in set(obj["cats"])])
         exp = set(tuple(x) for x in obj["expected"])
@@ -175,6 +235,48 @@ def run(ctx):
                                  sorted(got2) if got2 is not None else r2.get("fail", "")[:200]),
                               {"kind": "layout", "program": prog, "expected": sorted(e_inv), "observed": sorted(got2) if got2 else None,
                                "cats": [code[:-2]], "scenario": meta})
+    # (e) statements sharing a line: gofmt gives each statement its own line; every reference is reported in both layouts
+    compact_n = compact_programs(ctx)
+    pairs += compact_n
+    # (f) the file-level directive with and without an empty line between it and the package clause (both file-level in Scope.tla)
+    hdr = [sc for sc in progcheck.tlc_scenarios(ctx, "Scope", c07.cfg("all" if thorough else "quick"), "c12_scope_hdr")[0]
+           if not sc.get("ld") and sc["slot"] in ("F0", "F0d") and not sc.get("slot2")]
+    hitems = []
+    for i, sc in enumerate(progcheck.sample(hdr, 400 if thorough else 80, ctx.seed)):
+        prog, exp, _pos = gen_scope.build_scope(sc, "C12_hdr_%d" % i)
+        code = gen_scope.CODE.get(sc["kind"], sc["kind"])
+        f1 = [f for f in prog["pkgs"][-1]["files"] if f["name"] == "u/f1.go"][0]
+        k = f1["src"].index("package u")
+        head = f1["src"][:k]
+        if not head.strip():
+            continue
+        import copy
+        for j, sep in enumerate(("\n", "\n\n", "\n\n\n", "\n// Package u is the using package.\n")):
+            if sc["slot"] == "F0" and sep.startswith("\n//"):
+                pass   # the directive and the package documentation in one comment group: still before the package clause
+            tp = copy.deepcopy(prog)
+            tf = [f for f in tp["pkgs"][-1]["files"] if f["name"] == "u/f1.go"][0]
+            tf["src"] = head.rstrip("\n") + sep + f1["src"][k:]
+            tp["id"] = "%s_h%d" % (prog["id"], j)
+            shift = tf["src"].count("\n") - f1["src"].count("\n")
+            hitems.append((tp, {(fn, ln + (shift if fn == "u/f1.go" else 0), c) for (fn, ln, c) in exp}, code,
+                           {"module": "Scope", "scenario": {k2: sc[k2] for k2 in ("kind", "slot", "list")}, "transform": ["header separated by %r" % sep]}))
+    res = proglib.run_vh(ctx, [it[0] for it in hitems])
+    for prog, exp, code, meta in hitems:
+        r = res[prog["id"]]
+        pairs += 1
+        if r.get("err"):
+            raise vlib.ToolError("header variant does not load: %s %s" % (r["err"][:500], meta))
+        got = None if r.get("fail") else {k for k in proglib.keyset([d for d in r["diags"] if d["code"] == code]) if k[0].startswith("u/")}
+        nontrivial += 1 if exp else 0
+        if got != exp:
+            r2 = proglib.run_vh(ctx, [prog])[prog["id"]]
+            got2 = None if r2.get("fail") else {k for k in proglib.keyset([d for d in r2["diags"] if d["code"] == code]) if k[0].startswith("u/")}
+            if got2 == exp:
+                raise vlib.ToolError("mismatch did not reproduce: %s" % meta)
+            if len(ctx.violations) < 3:
+                ctx.violation("file-level `@ignore` (%s), %s: expected %s, observed %s" % (meta["scenario"], meta["transform"][0], sorted(exp), sorted(got2) if got2 is not None else r2.get("fail", "")[:200]),
+                              {"kind": "layout", "program": prog, "expected": sorted(exp), "observed": sorted(got2) if got2 else None, "cats": [code[:-2]], "code": code, "scenario": meta})
     return ctx.finish("model_checking", {
         "traces_validated_against_impl": pairs,
         "samples": samples,
